@@ -2,6 +2,9 @@
    stdin: the lines printed by harness/cmd/http (tab separated, first field = record type)
      EQ  cfgA cfgB impl                          Config.Equal differential
      CR  id kind where routes oracle class accepted observed      C19 crash cases
+     NC  id step addr routes opts oracle result  C19 NewConfig differential: one construction step of a chain
+         (opts: d/r/w/i<ns> timeouts, c<k> = WithConfigCopy(product k of the same case), n = no modelled field;
+          result: the product's encoding or "rejected")
      H   id cfgs init events                     reload history (event trace for the acceptor)
      DR  id drain gap band slack ds ok t flags trigger             C14 drain outcome
      (other lines, e.g. PROP..., are ignored here; the check module reads them itself)
@@ -62,6 +65,7 @@ let parse_event (cfgs : config array) (tok : string) : event =
   | "CB" ->
     (match tail tok 2 with
      | "E" -> ECallback CbErr
+     | "O" -> ECallback CbErrOld
      | "N" -> ECallback CbNil
      | k -> ECallback (CbCfg cfgs.(int_of_string k)))
   | "SH" -> EShutdownCall (nat_tail tok 2)
@@ -102,6 +106,8 @@ let () =
   let n = ref 0 and mism = ref 0 in
   let eq_n = ref 0 and eq_true = ref 0 and eq_nodup = ref 0 and eq_spec_diff = ref 0 in
   let cr_n = ref 0 and cr_crash = ref 0 and cr_find = ref 0 in
+  let nc_n = ref 0 and nc_copy = ref 0 and nc_rej = ref 0 in
+  let products : (string, (int * config option) list) Hashtbl.t = Hashtbl.create 64 in
   let h_n = ref 0 and h_acc = ref 0 and h_incon = ref 0 and h_events = ref 0 and h_states = ref 0 in
   let dr_n = ref 0 in
   (try
@@ -144,24 +150,55 @@ let () =
          let pa = if kind = "composite" then true else new_config_ok validated_now oracle routes in
          let crashed = observed = "crash" in
          if crashed then incr cr_crash;
-         if (acc = "1") <> pa then begin
-           incr mism;
-           Printf.printf "MISMATCH accept %s kind=%s where=%s impl_accepted=%s model_accepted=%b class=%s\n" id kind where acc pa cls
-         end else if pc && crashed then begin
+         (* a crash is reported first, with its input, whatever else disagrees *)
+         if pc && crashed then begin
            incr cr_find;
            Printf.printf "FINDING mux-panic:%s %s where=%s\n" cls id where
-         end else if pc && not crashed then begin
-           incr mism;
-           Printf.printf "MISMATCH crash-missing %s kind=%s where=%s class=%s observed=%s\n" id kind where cls observed
          end else if crashed then begin
            incr mism;
            Printf.printf "MISMATCH crash-unpredicted %s kind=%s where=%s class=%s\n" id kind where cls
          end else if observed = "handler-panic" then begin
            incr mism;
            Printf.printf "MISMATCH handler-panic %s kind=%s where=%s class=%s\n" id kind where cls
+         end else if (acc = "1") <> pa then begin
+           incr mism;
+           Printf.printf "MISMATCH accept %s kind=%s where=%s impl_accepted=%s model_accepted=%b class=%s\n" id kind where acc pa cls
+         end else if pc && not crashed then begin
+           incr mism;
+           Printf.printf "MISMATCH crash-missing %s kind=%s where=%s class=%s observed=%s\n" id kind where cls observed
          end else if observed = "hang" || observed = "none" then begin
            incr mism;
            Printf.printf "MISMATCH %s %s kind=%s where=%s\n" observed id kind where
+         end
+       | ["NC"; id; step; a; rs; opts; orc; result] ->
+         incr n; incr nc_n;
+         let prev = try Hashtbl.find products id with Not_found -> [] in
+         let routes = List.map parse_route (split ',' rs) in
+         let oracle = fun _ -> orc = "1" in
+         let bad = ref false in
+         let opt_of s =
+           let v () = z_of_string (tail s 1) in
+           match s.[0] with
+           | 'd' -> ODrain (v ()) | 'r' -> ORead (v ()) | 'w' -> OWrite (v ()) | 'i' -> OIdle (v ())
+           | 'c' -> incr nc_copy;
+             (match (try List.assoc (int_of_string (tail s 1)) prev with Not_found -> None) with
+              | Some c -> OCopy (Some c)
+              | None -> bad := true; ONone)   (* a copy of a product the model refused: reported at that step *)
+           | _ -> ONone in
+         let ol = List.map opt_of (split ',' opts) in
+         let m = new_config validated_now oracle (str_of_hex a) routes ol in
+         Hashtbl.replace products id ((int_of_string step, m) :: prev);
+         let i = if result = "rejected" then None else Some (parse_cfg result) in
+         if m = None then incr nc_rej;
+         let same = match m, i with
+           | None, None -> true
+           | Some x, Some y -> config_eqb x y
+           | _, _ -> false in
+         if not same && not !bad then begin
+           incr mism;
+           Printf.printf "MISMATCH newconfig %s step=%s impl=%s model=%s class=%s\n" id step
+             (if i = None then "rejected" else "accepted") (if m = None then "rejected" else "accepted")
+             (match m, i with Some _, Some _ -> "fields" | _ -> if orc = "1" then "ok-routes" else "bad-routes")
          end
        | ["H"; id; cfgs; init; evs] ->
          incr n; incr h_n;
@@ -190,11 +227,17 @@ let () =
          if not (drain_check (ni drain) (ni gap) (ni band) (ni slack) dsl (ok = "1") (ni t) fll) then begin
            incr mism;
            Printf.printf "MISMATCH drain %s trigger=%s drain=%s gap=%s ds=%s ok=%s t=%s flags=%s\n" id trig drain gap ds ok t fl
+         end else if not (sres_allowed (z_of_string drain) (if ok = "1" then SOk else STimeout)) then begin
+           (* protocol model (HttpServer.sres_allowed): with DrainTimeout <= 0 stopServer reports the timeout, whatever
+              Shutdown returned - an idle server included *)
+           incr mism;
+           Printf.printf "MISMATCH drain-result %s trigger=%s drain=%s ds=%s ok=%s: the protocol model allows only the timeout for DrainTimeout <= 0\n" id trig drain ds ok
          end
        | _ -> ()
      done
    with End_of_file -> ());
   Printf.printf
-    "SUMMARY n=%d mismatches=%d eq=%d eq_true=%d eq_nodup=%d cr=%d cr_crash=%d cr_findings=%d hist=%d hist_acc=%d hist_inconclusive=%d hist_events=%d hist_states=%d drain=%d validated=%d\n"
+    "SUMMARY n=%d mismatches=%d eq=%d eq_true=%d eq_nodup=%d cr=%d cr_crash=%d cr_findings=%d hist=%d hist_acc=%d hist_inconclusive=%d hist_events=%d hist_states=%d drain=%d nc=%d nc_copies=%d nc_rejected=%d validated=%d\n"
     !n !mism !eq_n !eq_true !eq_nodup !cr_n !cr_crash !cr_find !h_n !h_acc !h_incon !h_events !h_states !dr_n
+    !nc_n !nc_copy !nc_rej
     (if validated_now then 1 else 0)
